@@ -850,6 +850,7 @@ def check_tiling(res, facts):
         return
     res.absorb(it)
     steps = set()
+    vins = []
     if run.acc_locals and len(run.acc_locals) == 2:
         form = getattr(run, 'form', 'uv')
         for o in sem_iter(outs, include_loopback=True):
@@ -859,6 +860,16 @@ def check_tiling(res, facts):
             if not isinstance(b1, Num) or b1.term.const_value() is not None:
                 continue
             c = best_to_volt(qz, b1.term, o.ctx, form)
+            d1 = run.acc_get(o.state, 'dist')
+            if isinstance(d1, Num):
+                # the distance stored with the candidate is |input - candidate|: recover the integer input the scan compares
+                for cand_in in (d1.term + c, c - d1.term):
+                    if not any(a[0] in ('abs',) for a in cand_in.atoms()):
+                        vins.append(cand_in)
+                a_abs = [a for a in d1.term.atoms() if a[0] == 'abs']
+                if a_abs and isinstance(a_abs[0][1], Poly):
+                    vins.append(a_abs[0][1] + c)
+                    vins.append(c - a_abs[0][1])
             co = sorted(int(x) for m, x in c.t.items() if m != () and len(m) == 1 and m[0][1] == 1 and x.denominator == 1)
             if len(co) == 2 and len(c.t) == 2:
                 steps.add((co[0], co[1]))
@@ -867,6 +878,11 @@ def check_tiling(res, facts):
     if not ok_shape:
         return
     h, o_ = next(iter(steps))
+    # the input is brought onto the candidate grid by truncation: an allowed note never claims an input below its own voltage
+    exp_vin = t_f2i(v.term.scale(o_), 0, 2 ** 32 - 1, st.ctx)
+    res.ob('R-TILING', 'the input is truncated (not rounded) onto the microvolt grid', any(x == exp_vin for x in vins),
+           'the scan compares candidates against %s; expected trunc(v * %d) (rounding up assigns the last fraction of a microvolt below a note to that note: negative fraction)'
+           % (sorted({repr(x) for x in vins})[:3], o_), where, key='R-TILING:trunc')
     res.ob('R-TILING', 'twelve pitch-class steps fill one octave step exactly', 12 * h == o_,
            'candidate voltages are pc*%d + octave*%d microvolts: 12*%d = %d != %d, the last bucket of every octave is %d uV short; e.g. the chromatic '
            'scale at v = 0.999997 V is reported as note 12 (1.0 V) with fraction -2.98e-6 V although the clause demands a fraction in [0, 1) semitone'
